@@ -188,6 +188,10 @@ func (s *Session) WrapWith(tr string, i int, kind string, names []string) Event 
 					steps = append(steps, "/"+c)
 				}
 			}
+
+			if len(steps) == 0 {
+				steps = []string{"/", "/"} // a view of the root, and a view of that view
+			}
 		}
 
 		view := s.Base
